@@ -57,6 +57,7 @@ type ACred struct {
 	RevNonce      uint64
 	OtherType     string
 	ExtraSubject  []KV // further members of credentialSubject, as written (statements the abstract credential does not know)
+	TypeAlias     bool // the context gives the type IRI a second, shorter term without a scoped context
 }
 
 var didType = func() [2]byte {
@@ -144,6 +145,7 @@ func randCred(r *Rng, serialized bool) *ACred {
 		c.TopTypes = []string{c.TypeName, "VerifiableCredential"}
 	}
 	c.RevNonce = r.U64() >> uint(r.Intn(64))
+	c.TypeAlias = r.Chance(15)
 	if r.Chance(30) {
 		// a context re-published under the same URL (or served differently by another loader), and types that keep their
 		// name and IRI from one context document to the next: the same context list and type, another context document -
@@ -192,6 +194,10 @@ func (c *ACred) typeContext() []byte {
 		{c.TypeName, OObj{{"@id", c.TypeIRI}, {"@context", terms}}}}
 	if c.OtherType != "" {
 		ctx = append(ctx, KV{c.OtherType, OObj{{"@id", "urn:ex:other#" + c.OtherType}}})
+	}
+	if c.TypeAlias {
+		// another name for the same type IRI (an abbreviation used elsewhere): no scoped context, no attribute of its own
+		ctx = append(ctx, KV{"Kc", c.TypeIRI}, KV{"AAbbrev", OObj{{"@id", c.TypeIRI}}})
 	}
 	var b strings.Builder
 	bb := bytesBuf()
